@@ -142,6 +142,16 @@ def check_highest(ctx):
     red_f = [c for c in f.calls() if (c.path or "").endswith("HashMap::insert") and on("name_redirects", c) and under(c, ft)]
     ctx.ob("R09.3", "rename-import", bool(rm) and bool(ins), "higher version: the old import entry is removed and the merged kind re-inserted under the new name" if rm and ins else
            "higher-version branch does not move the import entry to the new name", site=f.span)
+    # the merged interface's own id follows the rename: the encoder names an interface that is pulled in as a *dependency*
+    # (TypeEncoder::import_deps) by Interface::id, not by the aggregator's import name, so a stale id resurfaces as the
+    # lower version whenever a user of the interface is encoded first
+    idw = [st for st in f.stmts() if any(n == "id" and o.endswith("component::Interface") for n, o, v in st.lhs.fields()) and under(st, tt)]
+    ok_id = any(any(i == name_param for fid, i in prov.slice(f, st.rv.ops[0] if st.rv.ops else st.rv.place).params) for st in idw if st.rv.ops or st.rv.place is not None)
+    ctx.ob("R09.3", "rename-interface-id", ok_id,
+           "higher version: the merged interface's id is set to the new canonical name" if ok_id else
+           "the higher-version branch renames the import entry but leaves the merged Interface::id at the lower version: an interface that `use`s it and is "
+           "encoded first imports it under the stale lower-version name (the shared import is then not named for the highest version, depending on creation order)",
+           site=f.span)
     ctx.ob("R09.3", "retarget-redirects", bool(ret), "higher version: existing redirects to the old name are re-targeted to the new canonical name" if ret else
            "higher-version branch leaves older redirects pointing at a name that is no longer an import (stale redirect chain)", site=f.span)
 
